@@ -669,18 +669,47 @@ func PrintAllTypes() {
 func PrintTargetClassExtends() {
 	className := getTargetClass()
 
-	for classNode, parents := range base.ClassInheritanceMap {
-		if classNode.Class == className {
-			for _, parent := range parents {
-				switch parent.Class {
-				case "":
-					fmt.Println("Object")
-				default:
-					fmt.Println(parent.Class)
-				}
-			}
+	// several frames may define a class of this name: pick one deterministically
+	var matched []base.ClassNode
 
-			return
+	for classNode := range base.ClassInheritanceMap {
+		if classNode.Class == className {
+			matched = append(matched, classNode)
+		}
+	}
+
+	if len(matched) == 0 {
+		return
+	}
+
+	slices.SortFunc(matched, func(a, b base.ClassNode) int {
+		if a.Frame != b.Frame {
+			if a.Frame < b.Frame {
+				return -1
+			}
+			return 1
+		}
+		if a.IsInclude != b.IsInclude {
+			if !a.IsInclude {
+				return -1
+			}
+			return 1
+		}
+		if a.IsExtend != b.IsExtend {
+			if !a.IsExtend {
+				return -1
+			}
+			return 1
+		}
+		return 0
+	})
+
+	for _, parent := range base.ClassInheritanceMap[matched[0]] {
+		switch parent.Class {
+		case "":
+			fmt.Println("Object")
+		default:
+			fmt.Println(parent.Class)
 		}
 	}
 }
